@@ -92,7 +92,9 @@ CHECKS.update({
         technique="TLA+ spec (Message!ParseMsg with merge / last-wins / packed-unpacked / map-entry semantics, validated by MCMessage's concatenation law) + TLC trace validation of generated Unmarshal on legal encoding variants",
         text="value trees are rendered by an independent protowire encoder into legal variants (field order permuted, packing flipped or split into several runs, singular "
              "scalars duplicated, sub-messages split over two occurrences, map entries value-first or with key/value omitted, unknown fields interleaved); the generated Unmarshal "
-             "runs on a destination pre-populated with other content and its projection must equal the specification's parse of the same bytes.",
+             "runs on a destination pre-populated with other content and its projection must equal the specification's parse of the same bytes. The generated map-entry decoder is also "
+             "modelled as a cursor machine (GenMapEntry) that TLC checks against the reference meaning of an entry over every payload of a bounded alphabet; the same payload domain is run "
+             "through the real generated code and judged by TraceMapEntry.",
         note=GEN_NOTE, ref="7 (C06)"),
     "C07": dict(
         technique="same traces as C06, continued with Size and Marshal of the unmarshaled message; TLC compares the unknown bytes (recursively) of ParseMsg(output) with those of the input and Size with len",
@@ -100,7 +102,9 @@ CHECKS.update({
         note=GEN_NOTE, ref="7 (C07)"),
     "C08": dict(
         technique="TLA+ spec (Message!ParseMsg as reference outcome) + TLC trace validation of generated Unmarshal on mutated encodings (truncation, substitution, length inflation, random bytes)",
-        text="no panic, allocation bounded by 256*len+64KiB per call, and whenever both the generated Unmarshal and the reference runtime (dynamicpb) accept an input the decoded messages are equal.",
+        text="no panic, allocation bounded by 256*len+64KiB per call, and whenever both the generated Unmarshal and the reference runtime (dynamicpb) accept an input the decoded messages are equal; "
+             "mutations include wire-type flips at every nesting level, length prefixes replaced by 2^20 .. 2^64-1, sandwich encodings with unknown fields around every field; every map-entry payload "
+             "of GenMapEntry's bounded domain (valid and malformed) goes through the generated decoder.",
         note=GEN_NOTE + "; allocation measured with runtime.ReadMemStats", ref="7 (C08)"),
     "C16": dict(
         technique="TLA+ spec (Generator: documented naming, GenOK) + TLC model checking of the naming function (MCGenerator, non-injectivity kept as expected violation) + TLC judging one recorded plug-in run per corpus file x flavour x option set",
